@@ -622,7 +622,8 @@ fn read_state<T: W>(c: &mut Case, model: &KMeans<T>, n: usize, d: usize, k: usiz
             .map(|r| r.as_array().map(|r| r.iter().map(|e| e.as_f64().map(round_t::<T>).unwrap_or(f64::NAN)).collect::<Vec<f64>>()))
             .collect::<Option<Vec<Vec<f64>>>>()
     });
-    let ok = kk == Some(k)
+    // a stored `k` is redundant with the number of centroids: its absence from the serialised form is no defect
+    let ok = kk.map_or(true, |q| q == k)
         && y.as_ref().map(|y| y.len() == n && y.iter().all(|l| *l < k)).unwrap_or(false)
         && size.as_ref().map(|s| s.len() == k).unwrap_or(false)
         && cents.as_ref().map(|cs| cs.len() == k && cs.iter().all(|r| r.len() == d)).unwrap_or(false);
